@@ -28,7 +28,9 @@ Record hooks : Type := mkHooks {
 Inductive kitem : Type :=
 | KUser (t : T)
 | KExec (iter : nat) (ts : F) (p : P)      (* event popped and executed as iteration [iter] *)
-| KRefused (ts : F) (p : P).               (* a hook's scheduling request was refused *)
+| KRefused (ts : F) (p : P)                (* a hook's scheduling request was refused *)
+| KSched (ts : F) (p : P).                 (* a hook's scheduling request was accepted (ghost:
+                                              lets theorems speak about "every accepted request") *)
 
 Record kstate : Type := mkK {
   k_el : eloop F P;
@@ -44,7 +46,7 @@ Fixpoint sched_all (l : eloop F P) (reqs : list (F * P)) : eloop F P * list kite
   | [] => (l, [])
   | (ts, p) :: r =>
       match el_schedule A l ts p with
-      | Some l' => sched_all l' r
+      | Some l' => let '(l2, items) := sched_all l' r in (l2, KSched ts p :: items)
       | None => let '(l2, items) := sched_all l r in (l2, KRefused ts p :: items)
       end
   end.
